@@ -743,7 +743,7 @@ ifilter_summaries("SXDOFilter", False)
 _fr = CONTRACTS[_DF + "#framed"]
 contract(
     _DF, name="framedO", props=["C09"],
-    portfolio=["z3-5.1", "z3-5.1/noext"],  # inv.step.others@L35: solver order only
+    portfolio=["z3-5.1/noext"],  # inv.step.others@L35: solver order only (default z3 gives up after 3 s, noext needs ~3 s)
     params={**_fr.params, "self": Ref("SXDOFilter")}, returns=BOOL, calls=dict(_fr.calls), globals=dict(_fr.globals), requires=list(_fr.requires),
     ensures=dict(_fr.ensures), canaries=dict(_fr.canaries), modifies=list(_fr.modifies), ghost_vars=dict(_fr.ghost_vars), ghost=dict(_fr.ghost),
     hints=dict(_fr.hints), loops={k: Loop(index=v.index, invariants=dict(v.invariants)) for k, v in _fr.loops.items()}, merge_branches=False,
@@ -1226,3 +1226,38 @@ def _b_process(d):
 
 
 CONTRACTS["ufo2ft.preProcessor:TTFInterpolatablePreProcessor.process"].runtime = Runtime(_process_cases, _b_process)
+
+
+# =====================================================================================================
+# round 3: BaseIFilter.getDefaultGlyphSet (the glyph set a filter takes for "the default master"), with an instantiator
+# =====================================================================================================
+CLASSES["SXInstantiator"].fields.setdefault("default_source_idx", INT)
+_INST = "self.context.instantiator"
+for _cn in ("SXDIFilter", "SXDOFilter"):
+    contract(
+        "ufo2ft.filters.base:BaseIFilter.getDefaultGlyphSet",
+        name=_cn,
+        props=["C09"],
+        params={"self": Ref(_cn)},
+        returns=Ref("SXGlyphSet"),
+        # (variant: with an instantiator; without one the method GUESSES the largest glyph set -- `max(.., key=len)` -- which is not a statement about masters)
+        requires=[f"{_INST} is not None", f"0 <= {_INST}.default_source_idx and {_INST}.default_source_idx < len({_GSS})"],
+        raises={"AssertionError": "False"},
+        ensures={"the-default-master's-glyph-set": f"result == {_GSS}[{_INST}.default_source_idx]"},
+        canaries={"first": f"result == {_GSS}[0]"},
+        loops={"for (i, glyphSet) in enumerate(self.context.glyphSets)": Loop(index="k", invariants={"not-yet": f"k <= {_INST}.default_source_idx"})},
+    )
+
+
+def _b_default_gs(d):
+    a = _b_dfilter(d)
+    return {"self": a["self"]}
+
+
+def _b_default_gs_only(d):
+    a = _b_ocall(d)
+    return {"self": a["self"]}
+
+
+CONTRACTS["ufo2ft.filters.base:BaseIFilter.getDefaultGlyphSet#SXDIFilter"].runtime = Runtime(_fam_cases, _b_default_gs)
+CONTRACTS["ufo2ft.filters.base:BaseIFilter.getDefaultGlyphSet#SXDOFilter"].runtime = Runtime(_only_cases, _b_default_gs_only)
